@@ -128,6 +128,8 @@ def _ops_random(rng, n_dec_target, drift):
             ops.append("ckpt:load")
         elif r < 0.66:
             ops.append("ckpt:load_checkpoint")
+        elif not drift and r < 0.70:
+            ops.append("mutdirect:arch")
         elif r < 0.74:
             # agent.test() / the training loops leave the agent in inference mode: decisions taken then are decisions too
             ops.append("mode:0" if rng.random() < 0.6 else "mode:1")
@@ -183,6 +185,7 @@ def cases(tier, seed):
             mk(algo, obs, 2.0, 0.5, ["act:4:0.0", "mut:act", "act:4:0.3", "ckpt:load", "act:3:0.0"])
         mk(algo, "vector", 2.0, 2.0, ["act:6:0.3", "learn", "act:6:0.0", "clone", "act:3:0.0"], int_hp=True)
         mk(algo, "vector", 1.0, 1.0, ["act:4:0.0", "mode:0", "act:6:0.3", "clone", "act:3:0.0", "mode:1", "act:3:0.0"])
+        mk(algo, "vector", 1.0, 1.0, ["act:3:0.0"] + ["mutdirect:arch", "act:3:0.0"] * 6)
         mk(algo, "vector", 0.5, 2.0, ["mode:0", "act:5:0.0", "ckpt:load", "act:4:0.3", "learn", "act:3:0.0"])
         for act in ("Tanh", "Sigmoid"):
             mk(algo, "vector", 1.0, 1.0, ["act:8:0.3", "learn", "act:8:0.0"], out_act=act)
@@ -738,6 +741,13 @@ def _run(case, rec):
                     agent = m.mutation([agent], pre_training_mut=False)[0]
                     rec.hit("mutation_ops")
                     rec.hit("mutation_ops:" + str(agent.mut).split(".")[-1] if op == "mut:arch" else "mutation_ops:" + op[4:])
+                elif kind == "mutdirect":
+                    # the public per-kind methods of Mutations called directly (not through Mutations.mutation, which runs the
+                    # mutation hooks itself afterwards)
+                    m = agentops.make_mutations("arch", seed=s % 100000)
+                    agentops.seed_all(s)
+                    agent = m.architecture_mutate(agent)
+                    rec.hit("direct_architecture_mutations")
                 elif kind == "mode":
                     agent.set_training_mode(op.endswith(":1"))
                     rec.hit("mode_switches")
